@@ -106,7 +106,56 @@ def scaler_stream(ctx):
         ctx.count('scaler-stream')
 
 
+def update_stream(ctx):
+    """real KFACBaseLayer.save_layer_input/update_a_factor on integer data vs the Lean rational
+    KV.Alg.linAFactor + updateFactor (mean of accumulated micro-batches, identity on first use)"""
+    import os
+    import sys
+    from fractions import Fraction as Fr
+    sys.path.insert(0, os.path.dirname(os.path.abspath(__file__)))
+    import C15
+    from kfac.distributed import TorchDistributedCommunicator
+    from kfac.layers.eigen import KFACEigenLayer
+    from kfac.layers.modules import LinearModuleHelper
+    rng = ctx.rng
+    lines, pend = [], []
+    for _ in range(ctx.budget(60, 600)):
+        fin, bias = rng.randrange(1, 4), rng.random() < 0.6
+        n = fin + int(bias)
+        m = torch.nn.Linear(fin, 2, bias=bias).double()
+        lay = KFACEigenLayer(LinearModuleHelper(m), tdc=TorchDistributedCommunicator())
+        alphas = [Fr(rng.choice([1, 1, 3, 15]), rng.choice([2, 4, 16])) for _ in range(rng.randrange(1, 4))]
+        prev = 'none'
+        for al in alphas:
+            if al > 1:
+                al = Fr(1, 2)
+            nb = rng.randrange(1, 4)
+            covs = []
+            for _b in range(nb):
+                rows = rng.choice([1, 2, 4])
+                x = torch.randint(-3, 4, (rows, fin)).double()
+                lay.save_layer_input([x])
+                X = torch.cat([x, torch.ones(rows, 1, dtype=torch.float64)], 1) if bias else x
+                covs.append((rows, x))
+            lay.update_a_factor(alpha=float(al))
+            got = lay.a_factor.clone()
+            # model: batches via lina, then update
+            blines = [f'alg f=lina rows={r} n={fin} bias={int(bias)} x={C15.mat_str(x)}' for r, x in covs]
+            bouts = ctx.model.ask(blines)
+            if any(b is None for b in bouts):
+                return
+            lines.append(f'alg f=update n={n} alpha={al.numerator}/{al.denominator} prev={prev} batches=' + '#'.join(bouts))
+            mo = ctx.model.ask([lines[-1]])[0]
+            ok = C15.exact(got, mo, Fr(1, 10**12))
+            ctx.compare('factor-update-exact', {'fin': fin, 'bias': bias, 'alpha': str(al), 'micro_batches': nb,
+                                                'first': prev == 'none'}, 'match' if ok else mo[:200], 'match')
+            prev = mo
+            ctx.evaluations += 1
+            ctx.count('update-stream-accum%d' % nb)
+
+
 def run(ctx):
+    update_stream(ctx)
     kfacsim.run_batch(ctx, gen_cfgs(ctx, ctx.budget(60, 600)), STREAMS,
                       oracles=(kfacsim.oracle_factors,), whole_only_oracles=False)
     dtype_stream(ctx)
